@@ -104,6 +104,7 @@ SPECS = {
     # read those attributes per object
     "cat_all": "special", "cat_in": "special", "cat_has": "special", "cat_flat": "special",
     "sq_part": "special", "sq_nested": "special", "cc_alone": "special", "cc_or": "special", "cc_and": "special",
+    "cc_oror": "special",        # the shared condition object in BOTH operands of a disjunction, next to a third condition
     # ... and with DIFFERENT selections: a two-variable condition object under entity(x) and under set_of([x, y]); a
     # sub-query object as an operand in a query over x and in a query over x and z
     "cd_x": "special", "cd_xy": "special", "sd_x": "special", "sd_xz": "special",
@@ -130,7 +131,7 @@ POOLS = {
     "D": ("fl_pe", "fl_e", "fl_the", "fl_pred", "fl_all"),
     "E": ("nd_k", "nd_join", "nd_rule", "nd_o"),
     "F": ("sh_cond", "sh_val", "sh_sel", "sh_valne"),
-    "G": ("sq_part", "sq_nested", "cc_alone", "cc_or", "cc_and"),
+    "G": ("sq_part", "sq_nested", "cc_alone", "cc_or", "cc_and", "cc_oror"),
     "I": ("cd_x", "cd_xy", "sd_x", "sd_xz", "ce_y", "ce_yw", "ca_and", "ca_or"),
     "H": ("cat_all", "cat_in", "cat_has", "cat_flat"),
     "J": ("ds_a", "ds_b", "ds_pred", "ds_none", "ds_two"),
@@ -247,6 +248,7 @@ class Pool:
                 self.q["cc_alone"] = an(entity(xc, c))
                 self.q["cc_or"] = an(entity(xc, or_(c, xc.q == one)))
                 self.q["cc_and"] = an(set_of([xc, yg], and_(c, xc.q <= yg.q)))
+                self.q["cc_oror"] = an(entity(xc, or_(or_(c, c), xc.q == two)))
             self.cc_sel = (xc, yg)
         if pool == "F":
             xf = let(W.Item, self.world["DF"])
@@ -514,7 +516,8 @@ def describe(case, inst):
                 "sq_nested": "sq_nested: an(entity(xg, part1 | part2))",
                 "cc_alone": "xc = let(Item, DA); c = (xc.p == 2)   # ONE condition object\ncc_alone: an(entity(xc, c))",
                 "cc_or": "cc_or: an(entity(xc, or_(c, xc.q == 1)))",
-                "cc_and": "cc_and: an(set_of([xc, y], and_(c, xc.q <= y.q)))   # y = let(Item, DB)"}[name])
+                "cc_and": "cc_and: an(set_of([xc, y], and_(c, xc.q <= y.q)))   # y = let(Item, DB)",
+                "cc_oror": "cc_oror: an(entity(xc, or_(or_(c, c), xc.q == 2)))"}[name])
         elif name.startswith("sh_"):
             lines.append({
                 "sh_cond": "xf = let(Item, DF); lvl = xf.flag   # ONE expression object\nsh_cond: an(entity(xf, lvl))",
